@@ -108,7 +108,7 @@ def make_cases(tier):
         "node-conflict-late": [A.node(v("c")), A.edge(v("c"), v("P0")), A.attrn(v("c"), A.attr("k", i(2))), A.attrn(v("P0"), A.attr("k", A.string("other")))],
     }
     # a node with more outgoing edges than fit a small inline buffer: a later run names one of the late edges
-    many = [A.node(v("hub"))] + [A.node(v("s%d" % j)) for j in range(12)] + [A.edge(v("hub"), v("s%d" % j)) for j in (5, 0, 11, 3, 8, 1, 10, 2, 9, 4, 7, 6)] \
+    many = [A.node(v("hub"))] + [A.node(v("s%d" % j)) for j in range(12)] + [A.attrn(v("s%d" % j), A.attr("id", i(j))) for j in range(12)] + [A.edge(v("hub"), v("s%d" % j)) for j in (5, 0, 11, 3, 8, 1, 10, 2, 9, 4, 7, 6)] \
         + [A.attre(v("hub"), v("s%d" % j), A.attr("w", i(j))) for j in (9, 0, 11, 4)]
     for j, (tgt, val, want) in enumerate([(10, 9, "ok"), (10, 1, "err"), (12, 11, "ok"), (12, 3, "err"), (5, 4, "ok"), (9, 7, "ok")]):
         for m1 in ("strict", "lazy"):
